@@ -742,6 +742,10 @@ class FormSum(BaseForm):
 
     def __init__(self, *components):
         """Initialise."""
+        if len(components) == 1 and components[0][0] is self:
+            # __new__ simplified FormSum((a, 1)) to the existing FormSum a:
+            # Python calls __init__ on it again, keep it as it is
+            return
         BaseForm.__init__(self)
 
         # Remove `ZeroBaseForm` components
